@@ -178,6 +178,76 @@ func runSession(c *hk.Ctx) {
 	}
 	c.SetExtra("status_distribution", dist)
 	runConcurrentDeletes(c)
+	runDeleteDuringRequest(c)
+}
+
+// runDeleteDuringRequest: a session is deleted (DELETE answered 200) while one of its requests is still being handled;
+// when that request finishes the session must stay deleted: a request, a stream and a second DELETE bearing the id are
+// refused with 404 and the id is not reported live.
+func runDeleteDuringRequest(c *hk.Ctx) {
+	for _, sse := range []bool{false, true} {
+		f := hk.NewFixture(hk.SrvCfg{Mode: "stateful", Get: true, PostSSE: sse})
+		entered := make(chan struct{}, 4)
+		gate := make(chan struct{})
+		f.S.RegisterTool(mcp.NewTool("gate"), func(ctx context.Context, req *mcp.CallToolRequest) (*mcp.CallToolResult, error) {
+			entered <- struct{}{}
+			select {
+			case <-gate:
+			case <-time.After(5 * time.Second):
+			}
+			return mcp.NewTextResult("late"), nil
+		})
+		r := f.Post(map[string]string{"Accept": "application/json"}, bodies["initOk"])
+		sid := ""
+		if r.Header != nil {
+			sid = r.Header.Get("Mcp-Session-Id")
+		}
+		hdr := map[string]string{"Mcp-Session-Id": sid, "Accept": "application/json, text/event-stream"}
+		done := make(chan int, 1)
+		go func() {
+			done <- f.Post(hdr, `{"jsonrpc":"2.0","id":9,"method":"tools/call","params":{"name":"gate","arguments":{}}}`).Status
+		}()
+		ok := sid != ""
+		select {
+		case <-entered:
+		case <-time.After(3 * time.Second):
+			ok = false
+		}
+		var del, after, del2, get int
+		var live []string
+		if ok {
+			del = f.Do("DELETE", f.URL, map[string]string{"Mcp-Session-Id": sid}, nil).Status
+			close(gate)
+			select {
+			case <-done:
+			case <-time.After(6 * time.Second):
+			}
+			time.Sleep(20 * time.Millisecond)
+			after = f.Post(hdr, bodies["request"]).Status
+			get, _, _, _ = f.OpenStream(map[string]string{"Mcp-Session-Id": sid})
+			del2 = f.Do("DELETE", f.URL, map[string]string{"Mcp-Session-Id": sid}, nil).Status
+			live, _ = f.S.GetActiveSessions()
+		} else {
+			close(gate)
+		}
+		f.Close()
+		if !ok {
+			c.Noise()
+			continue
+		}
+		stillLive := false
+		for _, id := range live {
+			if id == sid {
+				stillLive = true
+			}
+		}
+		c.Count("delete-during-request", true, nil, fmt.Sprintf("delete-%d", del))
+		if del == 200 && (after != 404 || del2 != 404 || get != 404 || stillLive) {
+			c.Violate(hk.Violation{Fingerprint: "session:deleted-session-comes-back", What: "a session deleted while one of its requests was still being handled is served / reported live again after that request finished",
+				Input:    map[string]any{"post_sse": sse, "steps": []string{"initialize", "tools/call (handler blocks)", "DELETE -> 200", "handler returns", "request / GET / DELETE bearing the id"}},
+				Observed: map[string]any{"request": after, "get": get, "second_delete": del2, "reported_live": stillLive}, Expected: "404, 404, 404, not live"})
+		}
+	}
 }
 
 // runConcurrentDeletes: overlapping DELETEs of one live id — exactly one of them ends the session (200), every other one
